@@ -330,6 +330,54 @@ pub fn features(s: &str) -> Value {
     })
 }
 
+/// `let v = <init with an open type>;` (no annotation) followed by >= 2 mentions of `v`, or two
+/// such bindings each mentioned afterwards
+fn open_binding_reused(s: &str, toks: &[tok::Tok]) -> bool {
+    let text = |t: &tok::Tok| &s[t.start..t.end];
+    let n = toks.len();
+    let mut open_bindings = 0;
+    for i in 0..n {
+        if text(&toks[i]) == "let" && i + 2 < n && toks[i + 1].kind == Kind::Ident && text(&toks[i + 2]) == "=" {
+            let v = text(&toks[i + 1]);
+            let mut depth = 0i32;
+            let mut j = i + 3;
+            let mut open = false;
+            while j < n {
+                let t = text(&toks[j]);
+                match t {
+                    "{" | "[" | "(" => depth += 1,
+                    "}" | "]" | ")" => {
+                        if depth == 0 {
+                            break;
+                        }
+                        depth -= 1;
+                    }
+                    ";" if depth == 0 => break,
+                    _ => {}
+                }
+                if t == "[" && toks.get(j + 1).is_some_and(|x| text(x) == "]") {
+                    open = true;
+                }
+                if matches!(t, "None" | "N" | "return" | "accept" | "reject") {
+                    open = true;
+                }
+                j += 1;
+            }
+            if !open {
+                continue;
+            }
+            let uses = toks[j.min(n)..].iter().filter(|t| t.kind == Kind::Ident && text(t) == v).count();
+            if uses >= 2 {
+                return true;
+            }
+            if uses >= 1 {
+                open_bindings += 1;
+            }
+        }
+    }
+    open_bindings >= 2
+}
+
 /// Loose, cheap over-approximation of "this input may kill the process"
 /// (stack overflow): such inputs are first compiled in a forked child.
 pub fn may_die(s: &str) -> bool {
@@ -342,6 +390,15 @@ pub fn may_die(s: &str) -> bool {
         let g = type_graph(s, &toks);
         let names: Vec<&str> = g.iter().map(|x| x.0.as_str()).collect();
         if g.iter().any(|(_, d, v)| d.iter().chain(v).any(|x| names.contains(&x.as_str()))) {
+            return true;
+        }
+    }
+    // an unannotated binding whose initialiser leaves a type variable open (`[]`, `None`, a
+    // diverging expression) and that is mentioned at least twice afterwards, or two such
+    // bindings (cycles through two variables): loose on purpose, a fork costs ~1 ms
+    if s.contains("let ") && (s.contains("[]") || s.contains("None") || s.contains("return") || s.contains(".N")) {
+        let toks = tok::tokens(s);
+        if open_binding_reused(s, &toks) {
             return true;
         }
     }
